@@ -28,8 +28,7 @@ theorem find_map_key {α : Type} (key : α → Nat) (l : List α) (g : α → α
 /-! ### writers that are quiet -/
 
 theorem NoNine.of_eq {s s' : State} (hl : s'.log = s.log) (hw : s'.ws = s.ws) (hk : s'.k = s.k) : NoNine s s' :=
-  ⟨⟨[], by simp [hl], fun _ h => by cases h⟩, fun w hw' h9 => ⟨w, by rw [← hw]; exact hw', h9⟩,
-   fun q hq => Or.inl (by rw [← hk]; exact hq), by rw [hk]; exact Nat.le_refl _⟩
+  ⟨⟨[], by simp [hl], fun _ h => by cases h⟩, fun w hw' h9 => ⟨w, by rw [← hw]; exact hw', h9⟩⟩
 
 /-- nothing a continuation looks at changes -/
 theorem SQuiet.of_eq {s s' : State} (hl : s'.log = s.log) (hb : s'.blocked = s.blocked) (ho : s'.objs = s.objs)
@@ -43,7 +42,11 @@ theorem SQuiet.of_eq {s s' : State} (hl : s'.log = s.log) (hb : s'.blocked = s.b
     unl := fun u p _ hn => by unfold Listed at *; simp only [getW, hw] at *; exact hn
     gone := fun p h => by rw [hk]; exact h
     reap := fun p st h => by rw [hl] at h; exact Or.inl h
-    ndc := fun p h => by rw [hk]; exact h }
+    ndc := fun p h => by rw [hk]; exact h
+    kpids := fun q hq => Or.inl (by rw [← hk]; exact hq)
+    npid := by rw [hk]; exact Nat.le_refl _
+    dpar := fun _ p h => by rw [hk]; exact h
+    objd := fun _ p h => Or.inl (by unfold HasObj at *; rw [← ho]; exact h) }
   frames := hf
   ready := hr
   nn := NoNine.of_eq hl hw hk
@@ -70,7 +73,11 @@ theorem SQuietW.of_log {s s' : State} (l : List Obs) (hl : s'.log = s.log ++ l) 
       · exact Or.inl h
       · have := hnr _ h
         simp [Obs.isReap] at this
-    ndc := fun p h => by rw [hk]; exact h }
+    ndc := fun p h => by rw [hk]; exact h
+    kpids := fun q hq => Or.inl (by rw [← hk]; exact hq)
+    npid := by rw [hk]; exact Nat.le_refl _
+    dpar := fun _ p h => by rw [hk]; exact h
+    objd := fun _ p h => Or.inl (by unfold HasObj at *; rw [← ho]; exact h) }
   frames := hf
   ready := hr
 
@@ -80,8 +87,7 @@ theorem SQuiet.of_log {s s' : State} (l : List Obs) (hl : s'.log = s.log ++ l) (
     (hb : s'.blocked = s.blocked) (ho : s'.objs = s.objs)
     (hw : s'.ws = s.ws) (hk : s'.k = s.k) (hf : s'.frames = s.frames) (hr : s'.ready = s.ready) : SQuiet s s' where
   toSQuietW := SQuietW.of_log l hl hnr hb ho hw hk hf hr
-  nn := ⟨⟨l, hl, hnn⟩, fun w hw' h9 => ⟨w, by rw [← hw]; exact hw', h9⟩,
-    fun q hq => Or.inl (by rw [← hk]; exact hq), by rw [hk]; exact Nat.le_refl _⟩
+  nn := ⟨⟨l, hl, hnn⟩, fun w hw' h9 => ⟨w, by rw [← hw]; exact hw', h9⟩⟩
 
 theorem squietW_emit (o : Obs) (ho : o.isReap = false) (s : State) : SQuietW s (emit o s).2 := by
   simp only [emit, modS]
@@ -117,7 +123,11 @@ theorem squiet_markBlocked (s : State) : SQuiet s (markBlocked s).2 where
     unl := fun u p _ hn => hn
     gone := fun p h => h
     reap := fun p st h => Or.inl h
-    ndc := fun p h => h }
+    ndc := fun p h => h
+    kpids := fun q hq => Or.inl hq
+    npid := Nat.le_refl _
+    dpar := fun _ p h => h
+    objd := fun _ p h => Or.inl h }
   frames := rfl
   ready := rfl
   nn := NoNine.of_eq rfl rfl rfl
@@ -132,8 +142,8 @@ theorem squietW_mapW (g : Watcher → Watcher) (hu : ∀ w, (g w).uid = w.uid)
     (s : State) : SQuietW s { s with ws := s.ws.map g } := by
   have hfind : ∀ v, ((s.ws.map g).find? (fun w => decide (w.uid = v))) =
       (s.ws.find? (fun w => decide (w.uid = v))).map g := fun v => find_map_key (·.uid) s.ws _ hu v
-  refine ⟨⟨⟨fun o h => h, fun h => h, fun p h => h, ?_, ?_, fun p h => h, fun p st h => Or.inl h, fun p h => h⟩,
-    fun p _ => rfl⟩, rfl, rfl⟩
+  refine ⟨⟨Ext0.ofK ⟨fun o h => h, fun h => h, fun p h => h, ?_, ?_, fun p h => h, fun p st h => Or.inl h, fun p h => h⟩
+    rfl (fun p h => h), fun p _ => rfl⟩, rfl, rfl⟩
   · intro v h hc
     unfold HookCalled at *
     simp only [getW] at hc ⊢
@@ -165,8 +175,7 @@ theorem squiet_mapW (g : Watcher → Watcher) (hu : ∀ w, (g w).uid = w.uid)
   toSQuietW := squietW_mapW g hu hp hh s
   nn := ⟨⟨[], by simp, fun _ h => by cases h⟩, fun w' hw' h9 => by
       obtain ⟨w, hw, rfl⟩ := List.mem_map.mp hw'
-      exact ⟨w, hw, by rw [← hs w]; exact h9⟩,
-    fun q hq => Or.inl hq, Nat.le_refl _⟩
+      exact ⟨w, hw, by rw [← hs w]; exact h9⟩⟩
 
 theorem squiet_modW (u : Nat) (f : Watcher → Watcher) (hu : ∀ w, (f w).uid = w.uid)
     (hp : ∀ w p, p ∈ (f w).pids → p ∈ w.pids)
@@ -280,14 +289,19 @@ theorem squiet_modO (p : Nat) (f : PObj → PObj) (hf : ∀ o, (f o).pid = o.pid
     intro o; split
     · exact (hf o).1
     · rfl
-  refine ⟨⟨⟨⟨fun o h => h, fun h => h, ?_, fun u h hh => hh, fun u q _ hn => hn, fun q h => h, fun q st h => Or.inl h,
-    fun q h => h⟩, ?_⟩, rfl, rfl⟩, NoNine.of_eq rfl rfl rfl⟩
-  · intro q h
-    unfold HasObj at *
+  have hmap : (modO p f s).2.objs.map (·.pid) = s.objs.map (·.pid) := by
     simp only [modO, modS, List.map_map]
     have : (fun o : PObj => o.pid) ∘ (fun o => if o.pid = p then f o else o) = fun o => o.pid := by
       funext o; exact hg o
-    rw [this]; exact h
+    rw [this]
+  refine ⟨⟨⟨Ext0.ofK ⟨fun o h => h, fun h => h, ?_, fun u h hh => hh, fun u q _ hn => hn, fun q h => h, fun q st h => Or.inl h,
+    fun q h => h⟩ rfl ?_, ?_⟩, rfl, rfl⟩, NoNine.of_eq rfl rfl rfl⟩
+  · intro q h
+    unfold HasObj at *
+    rw [hmap]; exact h
+  · intro q h
+    unfold HasObj at *
+    rw [hmap] at h; exact h
   · intro q _
     simp only [getO, modO, modS]
     rw [find_map_key (·.pid) s.objs _ hg q]
@@ -307,7 +321,7 @@ theorem squiet_setRc (p : Nat) (rc : Int) (s : State) : SQuiet s (setRc p rc s).
 /-- a kernel function under which gone stays gone, a stranger to the daemon stays one, and the
     process table keeps its pids -/
 theorem squiet_runK {α : Type} (f : Kernel → Kernel × α) (hf : KGMonoOp f) (hn : KNMonoOp f) (hs : KOp f)
-    (s : State) : SQuiet s (runK f s).2 where
+    (hd : ∀ k, k.PosK → KDMono k (f k).1) (s : State) : SQuiet s (runK f s).2 where
   ext := {
     log := fun o h => h
     blocked := fun h => h
@@ -317,45 +331,47 @@ theorem squiet_runK {α : Type} (f : Kernel → Kernel × α) (hf : KGMonoOp f) 
     unl := fun u p _ hn => hn
     gone := fun p h => hf s.k p h
     reap := fun p st h => Or.inl h
-    ndc := fun p h => hn s.k p h }
+    ndc := fun p h => hn s.k p h
+    kpids := fun q hq => Or.inl (by have := (hs s.k).pids; simp only [runK] at hq; rw [this] at hq; exact hq)
+    npid := by have := (hs s.k).nextPid; simp only [runK]; rw [this]; exact Nat.le_refl _
+    dpar := fun hp p h => hd s.k hp.2 p h
+    objd := fun _ p h => Or.inl h }
   frames := rfl
   ready := rfl
-  nn := ⟨⟨[], by simp [runK], fun _ h => by cases h⟩, fun w hw h9 => ⟨w, hw, h9⟩,
-    fun q hq => Or.inl (by have := (hs s.k).pids; simp only [runK] at hq; rw [this] at hq; exact hq),
-    by have := (hs s.k).nextPid; simp only [runK]; rw [this]; exact Nat.le_refl _⟩
+  nn := ⟨⟨[], by simp [runK], fun _ h => by cases h⟩, fun w hw h9 => ⟨w, hw, h9⟩⟩
 
 theorem squiet_updK (f : Kernel → Kernel) (hf : ∀ k, KGMono k (f k)) (hn : ∀ k, KNMono k (f k))
-    (hs : ∀ k, KStep k (f k)) (s : State) : SQuiet s (updK f s).2 :=
-  squiet_runK (fun k => (f k, ())) hf hn hs s
+    (hs : ∀ k, KStep k (f k)) (hd : ∀ k, k.PosK → KDMono k (f k)) (s : State) : SQuiet s (updK f s).2 :=
+  squiet_runK (fun k => (f k, ())) hf hn hs hd s
 
 theorem squietW_kKill (pid sig : Nat) (via : String) (s : State) : SQuietW s (kKill pid sig via s).2 := by
   unfold kKill
   simp only [bind, pure]
-  exact (squiet_runK _ (KGMono.kill pid sig) (KNMono.kill pid sig) (KStep.kill pid sig) s).toSQuietW.trans (squietW_emit _ rfl _)
+  exact (squiet_runK _ (KGMono.kill pid sig) (KNMono.kill pid sig) (KStep.kill pid sig) (KDMono.kill pid sig) s).toSQuietW.trans (squietW_emit _ rfl _)
 
 /-- a signal other than a SIGKILL through `send_signal` -/
 theorem squiet_kKill (pid sig : Nat) (via : String) (h : ¬ (sig = 9 ∧ via = "")) (s : State) :
     SQuiet s (kKill pid sig via s).2 := by
   unfold kKill
   simp only [bind, pure]
-  refine (squiet_runK _ (KGMono.kill pid sig) (KNMono.kill pid sig) (KStep.kill pid sig) s).trans (squiet_emit _ rfl ?_ _)
+  refine (squiet_runK _ (KGMono.kill pid sig) (KNMono.kill pid sig) (KStep.kill pid sig) (KDMono.kill pid sig) s).trans (squiet_emit _ rfl ?_ _)
   simp only [Obs.isNine, Bool.and_eq_false_iff, beq_eq_false_iff_ne, ne_eq]
   by_cases h1 : sig = 9
   · right; intro h2; exact h ⟨h1, h2⟩
   · left; exact h1
 
 theorem squiet_kStateOf (pid : Nat) (s : State) : SQuiet s (kStateOf pid s).2 :=
-  squiet_runK _ (KGMono.stateOf pid) (KNMono.stateOf pid) (KStep.stateOf pid) s
+  squiet_runK _ (KGMono.stateOf pid) (KNMono.stateOf pid) (KStep.stateOf pid) (KDMono.stateOf pid) s
 theorem squiet_kChildren (pid : Nat) (r : Bool) (s : State) : SQuiet s (kChildren pid r s).2 :=
-  squiet_runK _ (KGMono.children pid r) (KNMono.children pid r) (KStep.children pid r) s
+  squiet_runK _ (KGMono.children pid r) (KNMono.children pid r) (KStep.children pid r) (KDMono.children pid r) s
 theorem squiet_kSleep (ms : Nat) (s : State) : SQuiet s (kSleep ms s).2 :=
-  squiet_updK _ (fun k => KGMono.sleep k ms) (fun k => KNMono.sleep k ms) (fun k => KStep.sleep k ms) s
+  squiet_updK _ (fun k => KGMono.sleep k ms) (fun k => KNMono.sleep k ms) (fun k => KStep.sleep k ms) (fun k hk => KDMono.sleep k ms hk) s
 
 /-- `waitpid`: the pid it hands back is logged as reaped — and is gone -/
 theorem squiet_kWaitpid (pid : Option Nat) (s : State) : SQuiet s (kWaitpid pid s).2 := by
   unfold kWaitpid
   simp only [bind, pure]
-  have h1 := squiet_runK _ (KGMono.waitpid pid) (KNMono.waitpid pid) (KStep.waitpid pid) s
+  have h1 := squiet_runK _ (KGMono.waitpid pid) (KNMono.waitpid pid) (KStep.waitpid pid) (KDMono.waitpid pid) s
   cases hr : (runK (fun k => k.waitpid pid) s).1 with
   | echild => exact h1
   | none => exact h1
@@ -369,9 +385,9 @@ theorem squiet_kWaitpid (pid : Option Nat) (s : State) : SQuiet s (kWaitpid pid 
     simp only [emit, modS]
     split
     · exact SQuiet.refl _
-    · refine ⟨⟨⟨⟨fun o h => List.mem_append_left _ h, fun h => h, fun q h => h, fun u h hh => hh,
-        fun u q _ hn => hn, fun q h => h, ?_, fun q h => h⟩, fun q _ => rfl⟩, rfl, rfl⟩,
-        ⟨⟨[Obs.reap p st], rfl, by simp [Obs.isNine]⟩, fun w hw h9 => ⟨w, hw, h9⟩, fun q hq => Or.inl hq, Nat.le_refl _⟩⟩
+    · refine ⟨⟨⟨Ext0.ofK ⟨fun o h => List.mem_append_left _ h, fun h => h, fun q h => h, fun u h hh => hh,
+        fun u q _ hn => hn, fun q h => h, ?_, fun q h => h⟩ rfl (fun q h => h), fun q _ => rfl⟩, rfl, rfl⟩,
+        ⟨⟨[Obs.reap p st], rfl, by simp [Obs.isNine]⟩, fun w hw h9 => ⟨w, hw, h9⟩⟩⟩
       intro q st' h
       rcases List.mem_append.mp h with h | h
       · exact Or.inl h
